@@ -98,6 +98,39 @@ FAMILIES_TAG.update({"list-" + n: (lambda k, f=f: "a=[1, " + f(k)[2:]) for n, f 
 FAMILIES_TAG.update({"transl-" + n: (lambda k, f=f: "a=_(" + f(k)[2:]) for n, f in _unterminated("a=").items()})
 
 
+# first argument of a component tag (no quoted name before it): the bits go through TagFormatter.parse (tag_formatter.py) in the tag
+# function before parse_tag sees them.  Long bare words / long attribute names / separators of attribute syntax.
+FAMILIES_FIRSTARG = {
+    "word": lambda k: "a" * k,
+    "word-digits": lambda k: "a1" * k,
+    "word-dashes": lambda k: "a-" * k + "b",
+    "word-underscores": lambda k: "a_" * k,
+    "word-dots": lambda k: "a." * k + "b",
+    "word-colons": lambda k: "a:" * k + "b",
+    "word-mixed-separators": lambda k: "ab.cd:e-f_" * (k // 3 + 1),
+    "word-then-pipe-eq": lambda k: "a" * k + "|x=1",
+    "word-then-quote": lambda k: "a" * k + '"x"',
+    "word-then-bracket": lambda k: "a" * k + "[1]",
+    "word-unicode": lambda k: "é" * k,
+    "key-long": lambda k: "k" * k + "='x'",
+    "key-long-name": lambda k: "k" * k + "=1 name='x'",
+    "key-dotted": lambda k: "a." * k + "b='x'",
+    "key-colon": lambda k: "attrs:" + "class-" * k + "x='y'",
+    "key-at": lambda k: "@click" + ".stop" * k + "='y'",
+    "key-hash": lambda k: "#" + "a-" * k + "=1",
+    "key-leading-colon": lambda k: ":" + "a" * k,
+    "key-no-value": lambda k: "k" * k + "=",
+    "eq-only": lambda k: "=" * k,
+    "name-eq-run": lambda k: "name=" * k + "'x'",
+    "name-repeated": lambda k: " ".join(["name='x'"] * min(k, 2) + ["a=1"] * k),
+    "quoted-name-long": lambda k: "'" + "x" * k + "'",
+    "quoted-name-eq": lambda k: "'" + "a=" * k + "'",
+    "quoted-unterminated": lambda k: "'" + "a" * k,
+    "many-words": lambda k: " ".join(["a" * 8] * k),
+}
+FIRST_SHAPES = ["{%% component %s %%}", "{%% component %s / %%}", "{%% xs %s / %%}", "{%% xs %s %%}b{%% endxs %%}"]
+
+
 def _tpl_unterminated():
     out = {}
     for n, f in _unterminated("").items():
@@ -141,6 +174,32 @@ FAMILIES_TPL.update(_tpl_unterminated())
 
 
 # ---------------------------------------------------------------------------------------------
+# engines: both settings of `debug`; builtins = the component tags + a second registry whose components use the SHORTHAND tag
+# formatter (`{% xs ... %}`), so both TagFormatters are on the compile path
+# ---------------------------------------------------------------------------------------------
+_engine_cache = {}
+
+
+def make_engines():
+    if _engine_cache:
+        return {True: _engine_cache[True], False: _engine_cache[False]}
+    from django.template import Engine, Library
+    from django_components import Component, ComponentRegistry, RegistrySettings
+    lib = Library()
+    reg2 = ComponentRegistry(library=lib, settings=RegistrySettings(tag_formatter="django_components.component_shorthand_formatter"))
+
+    class XS(Component):
+        template = "xs"
+    reg2.register("xs", XS)
+    for dbg in (True, False):
+        eng = Engine(debug=dbg, builtins=["django_components.templatetags.component_tags"])
+        eng.template_builtins.append(lib)
+        _engine_cache[dbg] = eng
+    _engine_cache["registry"] = reg2          # keep it alive
+    return {True: _engine_cache[True], False: _engine_cache[False]}
+
+
+# ---------------------------------------------------------------------------------------------
 # worker
 # ---------------------------------------------------------------------------------------------
 class _Hang(BaseException):
@@ -165,8 +224,7 @@ def _targets():
             else:
                 is_dynamic_expression(v.serialize())
 
-    from django.template import Engine
-    engs = [Engine(debug=d, builtins=["django_components.templatetags.component_tags"]) for d in (True, False)]
+    engs = list(make_engines().values())
 
     def t_template(s):
         # both settings of engine.debug (the debug branch of compile_nodelist handles every error differently); the first
